@@ -23,7 +23,7 @@ var_name = st.one_of(
     st.text(st.sampled_from(LET), min_size=1, max_size=8),
     st.tuples(st.text(st.sampled_from(LET), min_size=1, max_size=4), st.text(st.sampled_from(LET + '0123456789_'), max_size=6)).map(lambda t: t[0] + '_' + t[1]),
     st.text(st.sampled_from(LET + '__'), min_size=1, max_size=8),
-    st.sampled_from(['x', 'SUM', 'sum', 'If', 'a_1', 'A_1', '_', '__', 'total_2024', 'e', 'pi', 'True', 'true', 'Null']),
+    st.sampled_from(['x', 'SUM', 'sum', 'If', 'a_1', 'A_1', '_', '__', 'total_2024', 'e', 'pi', 'True', 'true', 'Null', 'nan', 'inf', 'NaN', 'Infinity', 'infinity', 'INF']),      # (the last six: names that float() would read as numbers)
     st.sampled_from(['TRUE', 'FALSE', 'NULL']),        # the predefined names are variables like any other: a host may bind them anew
 )
 
@@ -390,9 +390,20 @@ def check_unknown(case):
     text = gf.render(t)
     env = Env(vars={'v_a': 4, 'v_b': 9}, cells={'B2': 6})
     passive_listeners(env.P, case.get('listeners', 0))
+    other = ''
+    if len(text) % 2 == 0:
+        # the name is taken in the *other* table: a variable (holding a callable) named like the called function, a function named like the referenced variable.
+        # Functions and variables are separate name spaces: the call, or the reference, is unknown all the same
+        node = case['node']
+        if node[0] == 'call':
+            env.P.set_variable(node[1], lambda *a: 4242)
+            other = ' (a variable of that name holds a callable)'
+        else:
+            env.P.set_function(node[1], lambda *a: 4242)
+            other = ' (a custom function of that name is registered)'
     r = env.parse(text)
     if r['error'] != '#NAME?' or r['result'] is not None:
-        raise Violation('%s references an unregistered name -> %r, expected #NAME? with an empty result' % (text, r), r['error'] or enc(r['result']), '#NAME?')
+        raise Violation('%s references an unregistered name%s -> %r, expected #NAME? with an empty result' % (text, other, r), r['error'] or enc(r['result']), '#NAME?')
 
 
 # ---------------------------------------------------------------- other spellings of documented names
